@@ -1,3 +1,266 @@
 package main
 
-func writeFacts(p string) error { return nil }
+// K3 fact extractor for C14 (go/parser + go/ast only). Writes lean/ScVerif/Generated/C14Facts.lean:
+//
+//   discoveredServers  constructors in pkg/trait/* returning a struct that embeds a generated
+//                      Unimplemented…ApiServer (the server implementations), read from the source tree
+//   drivenServers      the rows of this harness's hand-listed stackTable
+//   triples            for every server type: each GetX/UpdateX/PullX method trio it declares, with the
+//                      syntactic shape of the translation (read_mask → WithReadMask, update_mask →
+//                      WithUpdateMask, updates_only → WithUpdatesOnly, request name echoed in changes)
+
+import (
+	"fmt"
+	"go/ast"
+	"go/parser"
+	"go/token"
+	"os"
+	"path/filepath"
+	"sort"
+	"strings"
+
+	"github.com/smart-core-os/sc-golang/verifharness/lib"
+)
+
+type tripleFact struct {
+	Key                                          string
+	GetMask, UpdMask, PullMask, PullUO, PullName bool
+	GetParam, UpdParam, PullParam                string
+}
+
+func recvTypeName(fd *ast.FuncDecl) string {
+	if fd.Recv == nil || len(fd.Recv.List) == 0 {
+		return ""
+	}
+	t := fd.Recv.List[0].Type
+	if se, ok := t.(*ast.StarExpr); ok {
+		t = se.X
+	}
+	if id, ok := t.(*ast.Ident); ok {
+		return id.Name
+	}
+	return ""
+}
+
+// reqParam is the name of the request parameter of a server method (the one that is not ctx / stream).
+func reqParam(fd *ast.FuncDecl, streaming bool) string {
+	if fd.Type.Params == nil {
+		return ""
+	}
+	idx := 1
+	if streaming {
+		idx = 0
+	}
+	k := 0
+	for _, f := range fd.Type.Params.List {
+		for _, n := range f.Names {
+			if k == idx {
+				return n.Name
+			}
+			k++
+		}
+	}
+	return ""
+}
+
+// usesOpt: the body contains a call <anything>.<opt>( req.<Field> | req.Get<Field>() ).
+func usesOpt(body *ast.BlockStmt, opt, req, field string) bool {
+	found := false
+	ast.Inspect(body, func(n ast.Node) bool {
+		c, ok := n.(*ast.CallExpr)
+		if !ok || len(c.Args) != 1 {
+			return true
+		}
+		sel, ok := c.Fun.(*ast.SelectorExpr)
+		if !ok || sel.Sel.Name != opt {
+			return true
+		}
+		if isReqField(c.Args[0], req, field) {
+			found = true
+		}
+		return true
+	})
+	return found
+}
+
+func isReqField(e ast.Expr, req, field string) bool {
+	switch x := e.(type) {
+	case *ast.SelectorExpr:
+		id, ok := x.X.(*ast.Ident)
+		return ok && id.Name == req && x.Sel.Name == field
+	case *ast.CallExpr:
+		if sel, ok := x.Fun.(*ast.SelectorExpr); ok && len(x.Args) == 0 {
+			id, ok := sel.X.(*ast.Ident)
+			return ok && id.Name == req && sel.Sel.Name == "Get"+field
+		}
+	}
+	return false
+}
+
+// echoesName: the body builds a composite literal with `Name: req.Name` (or req.GetName()).
+func echoesName(body *ast.BlockStmt, req string) bool {
+	found := false
+	ast.Inspect(body, func(n ast.Node) bool {
+		kv, ok := n.(*ast.KeyValueExpr)
+		if !ok {
+			return true
+		}
+		if k, ok := kv.Key.(*ast.Ident); ok && k.Name == "Name" && isReqField(kv.Value, req, "Name") {
+			found = true
+		}
+		return true
+	})
+	return found
+}
+
+func leanStr(s string) string {
+	return "\"" + strings.NewReplacer("\\", "\\\\", "\"", "\\\"", "\n", " ").Replace(s) + "\""
+}
+
+func leanList(xs []string) string {
+	q := make([]string, len(xs))
+	for i, x := range xs {
+		q[i] = leanStr(x)
+	}
+	return "[" + strings.Join(q, ", ") + "]"
+}
+
+func writeFacts(path string) error {
+	root := filepath.Join(lib.RepoRoot(), "pkg", "trait")
+	ents, err := os.ReadDir(root)
+	if err != nil {
+		return err
+	}
+	var discovered []string
+	var facts []tripleFact
+	for _, e := range ents {
+		if !e.IsDir() {
+			continue
+		}
+		dir := filepath.Join(root, e.Name())
+		fset := token.NewFileSet()
+		files, _ := os.ReadDir(dir)
+		serverTypes := map[string]bool{}
+		holds := map[string][]string{}                   // struct type -> pointer field types (same package idents or resource.X)
+		methods := map[string]map[string]*ast.FuncDecl{} // type -> method name -> decl
+		ctors := map[string]string{}                     // ctor name -> result type
+		for _, fe := range files {
+			n := fe.Name()
+			if fe.IsDir() || !strings.HasSuffix(n, ".go") || strings.HasSuffix(n, "_test.go") || strings.HasSuffix(n, ".pb.go") {
+				continue
+			}
+			f, err := parser.ParseFile(fset, filepath.Join(dir, n), nil, 0)
+			if err != nil {
+				return err
+			}
+			for _, d := range f.Decls {
+				switch x := d.(type) {
+				case *ast.GenDecl:
+					for _, sp := range x.Specs {
+						ts, ok := sp.(*ast.TypeSpec)
+						if !ok {
+							continue
+						}
+						st, ok := ts.Type.(*ast.StructType)
+						if !ok {
+							continue
+						}
+						for _, fl := range st.Fields.List {
+							if se, ok := fl.Type.(*ast.StarExpr); ok {
+								switch x := se.X.(type) {
+								case *ast.Ident:
+									holds[ts.Name.Name] = append(holds[ts.Name.Name], x.Name)
+								case *ast.SelectorExpr:
+									if id, ok := x.X.(*ast.Ident); ok {
+										holds[ts.Name.Name] = append(holds[ts.Name.Name], id.Name+"."+x.Sel.Name)
+									}
+								}
+							}
+							if len(fl.Names) != 0 {
+								continue
+							}
+							if sel, ok := fl.Type.(*ast.SelectorExpr); ok && strings.HasPrefix(sel.Sel.Name, "Unimplemented") && strings.HasSuffix(sel.Sel.Name, "ApiServer") {
+								serverTypes[ts.Name.Name] = true
+							}
+						}
+					}
+				case *ast.FuncDecl:
+					if x.Recv != nil {
+						t := recvTypeName(x)
+						if methods[t] == nil {
+							methods[t] = map[string]*ast.FuncDecl{}
+						}
+						methods[t][x.Name.Name] = x
+					} else if strings.HasPrefix(x.Name.Name, "New") && ast.IsExported(x.Name.Name) && x.Type.Results != nil && len(x.Type.Results.List) > 0 {
+						if se, ok := x.Type.Results.List[0].Type.(*ast.StarExpr); ok {
+							if id, ok := se.X.(*ast.Ident); ok {
+								ctors[x.Name.Name] = id.Name
+							}
+						}
+					}
+				}
+			}
+		}
+		var holdsResource func(t string, d int) bool
+		holdsResource = func(t string, d int) bool {
+			for _, h := range holds[t] {
+				if h == "resource.Value" || h == "resource.Collection" || (d < 2 && h != t && holdsResource(h, d+1)) {
+					return true
+				}
+			}
+			return false
+		}
+		for ctor, typ := range ctors {
+			// a server implementation over a resource (model server / memory device), not a Group aggregating clients
+			if !serverTypes[typ] || !holdsResource(typ, 0) {
+				continue
+			}
+			discovered = append(discovered, e.Name()+"."+ctor)
+			for name, g := range methods[typ] {
+				if !strings.HasPrefix(name, "Get") || g.Body == nil {
+					continue
+				}
+				x := strings.TrimPrefix(name, "Get")
+				u, p := methods[typ]["Update"+x], methods[typ]["Pull"+x]
+				if u == nil || p == nil || u.Body == nil || p.Body == nil {
+					continue
+				}
+				gr, ur, pr := reqParam(g, false), reqParam(u, false), reqParam(p, true)
+				facts = append(facts, tripleFact{
+					Key:      e.Name() + "." + ctor + "/" + x,
+					GetMask:  usesOpt(g.Body, "WithReadMask", gr, "ReadMask"),
+					UpdMask:  usesOpt(u.Body, "WithUpdateMask", ur, "UpdateMask"),
+					PullMask: usesOpt(p.Body, "WithReadMask", pr, "ReadMask"),
+					PullUO:   usesOpt(p.Body, "WithUpdatesOnly", pr, "UpdatesOnly"),
+					PullName: echoesName(p.Body, pr),
+					GetParam: gr, UpdParam: ur, PullParam: pr,
+				})
+			}
+		}
+	}
+	sort.Strings(discovered)
+	sort.Slice(facts, func(i, j int) bool { return facts[i].Key < facts[j].Key })
+	var driven []string
+	for _, r := range stackTable {
+		driven = append(driven, r.key())
+	}
+	sort.Strings(driven)
+	var b strings.Builder
+	b.WriteString("/- GENERATED by harness/cmd/c14 -facts from the source tree on every run. Do not edit, do not commit. -/\n")
+	b.WriteString("namespace ScVerif.Generated.C14\n\n")
+	b.WriteString("structure Triple where\n  key : String\n  getReadMask : Bool\n  updateMask : Bool\n  pullReadMask : Bool\n  pullUpdatesOnly : Bool\n  pullEchoesName : Bool\n  deriving Repr\n\n")
+	b.WriteString("def Triple.canonical (t : Triple) : Bool :=\n  t.getReadMask && t.updateMask && t.pullReadMask && t.pullUpdatesOnly && t.pullEchoesName\n\n")
+	b.WriteString("def discoveredServers : List String := " + leanList(discovered) + "\n\n")
+	b.WriteString("def drivenServers : List String := " + leanList(driven) + "\n\n")
+	b.WriteString("def triples : List Triple := [\n")
+	for i, t := range facts {
+		sep := ","
+		if i == len(facts)-1 {
+			sep = ""
+		}
+		fmt.Fprintf(&b, "  { key := %s, getReadMask := %v, updateMask := %v, pullReadMask := %v, pullUpdatesOnly := %v, pullEchoesName := %v }%s\n",
+			leanStr(t.Key), t.GetMask, t.UpdMask, t.PullMask, t.PullUO, t.PullName, sep)
+	}
+	b.WriteString("]\n\nend ScVerif.Generated.C14\n")
+	return os.WriteFile(path, []byte(b.String()), 0o644)
+}
